@@ -439,6 +439,14 @@ class C20(Property):
         if all(self._on(f) for f in (F15, F21)) and tier != "search":
             for src in c20gen.deletion_matrix():
                 cases.append({"src": src, "muts": []})
+        # names and lexemes as inputs, enumerated (keyword-like identifiers in every identifier
+        # position, every string/raw-string form in every literal position, route paths, @server
+        # values, white-space and encoding variants of one program): all ~1150 tiny programs in the
+        # thorough tier, a random half of them per quick run
+        if tier != "search":
+            lm = c20gen.lexeme_matrix()
+            for src in (lm if tier == "thorough" else rng.sample(lm, len(lm) // 2)):
+                cases.append({"src": src, "muts": []})
         on = {f: self._on(f) for f in (F10, F15, F16, F17, F18, F19, F20, F21, F24, F25)}
         for i in range(n):
             opts = {"percent": on[F18] and rng.random() < 0.3,
